@@ -88,3 +88,60 @@ CONFIG["C13"] = dict(
     level_note="Lean kernel; keccakF1600 and SHA-2 compression functions are compared, not verified; refHash (absorb full blocks then padded block) vs FIPS pad-then-absorb equivalence is checked at run time on every case, not proved",
     assumptions=["outputs of the sponge hashers are not longer than the rate (true for the three configured ones)"],
 )
+
+BLS_TB = COMMON_TB + [
+    "modelled, not verified: blst_src (field/curve arithmetic, hash-to-curve, pairing, subgroup checks); the abstract theorems assume a bilinear non-degenerate pairing "
+    "and a subgroup test deciding the image of G1 in E1 (structure PairingGroups, universally quantified, instantiated by a toy instance for non-vacuity); "
+    "agreement of BLST with that structure is established by the correspondence run only",
+    "the abstract Codec laws (decode/encode inverse, 48-byte length) are hypotheses of the BLS theorems; the concrete E1 codec model is tied to them by correspondence (C05)",
+]
+
+def _bls(prop, modules, rule, technique, text, note, gens=None):
+    CONFIG[prop] = dict(lean_modules=modules, generators=gens or [prop], level="proof", rule=rule, trusted_base=BLS_TB,
+                        technique=technique, level_text=text, level_note=note,
+                        assumptions=["BLST's pairing is bilinear and non-degenerate on G1 x G2 and POINTonE1_in_G1 decides the prime-order subgroup",
+                                     "hash-to-curve is an uninterpreted function observed through the signature of the private key 1"])
+
+_bls("C01", ["Props.C01"],
+     "keys {1,2,r-1,r-2,generated,decoded,aggregated,aggregated-to-1,random} x messages (lengths 0,1,135..137,167..169,1KiB,100KiB) x tags (empty, short, BLS_POP_ prefix, 1000 bytes): "
+     "Sign compared with the model's sk*H; Verify on the candidate catalogue (valid, negated, s+T for three torsion points built by the model, s+off-group, s+delta in G1, all 8 flag-bit "
+     "combinations, bit flips (quick sampled, thorough all 384), x+p twin, x>=p, trailing bytes, lengths, identity and dirty-identity encodings, invalid header), other message/tag/key, "
+     "fixed hashers with chosen 128-byte outputs (zeros, ones, chunks >= p), identity keys obtained 4 ways, hasher guards; expected verdict: candidate == encode(sk*H) and sk != 0",
+     "Lean 4 proof (acceptance theorem from bilinearity + codec laws) + differential run vs concrete E1 arithmetic model",
+     "Theorem verify_iff: for every pairing structure, hash-to-curve, codec, non-zero key, message and 128-byte hasher, Verify is true for exactly the string Sign returns; corollaries for other message/key, "
+     "points outside the subgroup, malformed strings, identity signature, identity key, hasher guards; guards tied to extracted conditions.",
+     "Lean kernel + correspondence; see trusted base")
+_bls("C02", ["Props.C02"],
+     "random shapes n<=12 (thorough n<=40): all-distinct, all-equal, few-messages/many-keys, few-keys/many-messages, ties, duplicated pairs, pk and -pk on one message, equal points held in decoded / "
+     "removal-result objects, two hashers; candidates: honest aggregate, permuted triples, share missing/doubled, +torsion, bit flip, wrong length, identity key inside with aggregate of the others; "
+     "OneMessage vs Verify under the summed key; typed errors in documented order; the C path selected by each shape is recorded (coverage.paths)",
+     "Lean 4 proof (pairing-product spec for every grouping/order/back end) + differential run vs scalar-level equation",
+     "Theorem verifyMany_spec/iff_sum: for every list, every grouping (map order, duplicate representations) and either back end the verdict is 'no identity key and sig = encode(sum sk_i*H_i)'; "
+     "permutation/grouping independence, cancellation, multiplicity, OneMessage = Verify under the sum = ManyMessages on the replicated message.",
+     "Lean kernel + correspondence; the comparator choosing the back end and Go map order are parameters of the theorem")
+_bls("C03", ["Props.C03"],
+     "n<=5 (thorough n<=7): every subset of invalid positions x kinds {bit flip, swapped pairs, s_i+d/s_j-d, three-way cancellation, non-G1, wrong length, bad header, identity key, identity signature}; "
+     "sampled n in {8,9} (thorough 8,9,15,16,17,33); each index compared with the model's individual verdict AND with pks[i].Verify on the implementation; input errors all-false; internal randomness is crypto/rand",
+     "Lean 4 proof (tree recursion = individual verdicts outside an explicit bad set of coefficient vectors) + differential run",
+     "Theorem batch_eq_individual: for every n, split, inputs and non-zero coefficient vector outside the bad set (some contiguous segment with a defective entry sums to zero) the result equals index-wise Verify; "
+     "all-valid and single-defect batches are good for every vector; coefficients rand+1 < r are non-zero. The cardinality bound of the bad set ((n choose 2)+n segments, each <= 2^128^(n-1) vectors) is argued in DESIGN.md, not yet a theorem (partial).",
+     "Lean kernel + correspondence; probability statement reduced to membership in an explicit bad set")
+_bls("C04", ["Props.C04"],
+     "random multisets of 1..16 scalars with duplicates, additive inverses, small values, forced zero sums; permutations; nested aggregation; removal; aggregated signatures vs signature of aggregated key; "
+     "malformed entries (short, bad header, outside G1 - accepted by aggregation as documented: no subgroup check) ; empty lists and non-BLS keys",
+     "Lean 4 proof (homomorphism laws over abstract groups) + differential run vs concrete Fr/E1/E2 arithmetic",
+     "Theorems: pub(aggSK)=aggPK(pubs); aggSig(signs)=sign(aggSK); remove(agg(A++B),B)=agg(A); permutation and nesting independence; cancellation gives identity key / identity signature encoding; documented errors.",
+     "Lean kernel + correspondence")
+_bls("C16", ["Props.C16"],
+     "keys as in C01 x PoP generation vs model, honest verification, other key, candidate catalogue, signatures of the public-key bytes under 9 tags (empty, prefix/suffix-overlapping with the PoP suite, 1 KiB) "
+     "submitted as PoP, PoP submitted to Verify under each tag, identity keys, non-BLS keys",
+     "Lean 4 proof (instance of the acceptance theorem; string lemma for every tag; separation under an explicit collision-freeness hypothesis) + differential run",
+     "Theorems: pop_iff, pop_identity_false, pop_other_key; suite_keys_distinct for EVERY tag, re-proved against the strings extracted from the code; pop_sig_separation conditional on an explicit "
+     "hypothesis that the keyed hash-to-curve has no collisions across distinct keys (partial: no executable model can discharge it).",
+     "Lean kernel + correspondence; random-oracle-style hypothesis explicit")
+_bls("C17", ["Props.C17"],
+     "key pairs (distinct, equal, negated) x data: honest, swapped pairs, crossed proofs, other data, other key, scaled by a common factor, +torsion on either/both proofs, identity proofs, malformed, wrong length, "
+     "identity keys (4 constructions) in either/both positions, VerifyAgainstData vs Verify, non-BLS keys; expected verdict: sk2*P1 == sk1*P2 with both in G1",
+     "Lean 4 proof (exact characterisation of SPOCKVerify) + differential run",
+     "Theorems: spock_iff (true iff both proofs canonical G1 encodings, no identity key, e(p1,pk2)=e(p2,pk1)), symmetry, honest proofs verify, other data rejected, common scaling, rejection catalogue, agreement with Verify.",
+     "Lean kernel + correspondence")
